@@ -186,7 +186,10 @@ func C05(r *eng.Run) {
 	wire := append([]byte(nil), s.Wire[:offAt(s, k)]...)
 	badOff := len(wire)
 	wire = ref.AppendFrame(wire, bad)
-	wire = append(wire, s.Wire[offAt(s, k):]...)
+	lastOnWire := r.T.Chance(sim.LFault, 1, 4) // nothing follows the offending frame
+	if !lastOnWire {
+		wire = append(wire, s.Wire[offAt(s, k):]...)
+	}
 	marks := MarksOf(s.Frames[:k])
 	marks = append(marks, Mark{bad.Off, 'F'}, Mark{bad.HdrEnd, 'H'}, Mark{bad.End, 'E'})
 
@@ -202,6 +205,10 @@ func C05(r *eng.Run) {
 	p := NewPipe(r, wire)
 	p.Marks = marks
 	p.SegMode = DrawSeg(r)
+	p.EOFWithData = r.T.Chance(sim.LFault, 1, 3) // the last bytes arrive together with io.EOF
+	if lastOnWire && p.EOFWithData && payLen == 0 {
+		r.Probe("offending_header_ends_with_eof_in_same_read")
+	}
 	r.Probe("violation_" + kind)
 	if fragmented {
 		r.Probe("violation_while_fragmented")
